@@ -59,8 +59,8 @@ def decode_instruction(instr):
     elif substring(instr, 28, 27) == 0b11 and substring(instr, 26, 24) == 0b010:
         # Data-processing (register)
         return thumb_data_processing_register.decode_instruction(instr)
-    elif substring(instr, 28, 27) == 0b11 and substring(instr, 26, 23) == 0b0110:
-        # Multiply, multiply accumulate, and absolute difference
+    elif substring(instr, 28, 27) == 0b11 and substring(instr, 26, 23) == 0b0110 and substring(instr, 7, 6) == 0b00:
+        # Multiply, multiply accumulate, and absolute difference (bits<7:6> != 00 is UNDEFINED)
         return thumb_multiply_multiply_accumulate_and_absolute_difference.decode_instruction(instr)
     elif substring(instr, 28, 27) == 0b11 and substring(instr, 26, 23) == 0b0111:
         # Long multiply, long multiply accumulate, and divide
